@@ -14,9 +14,14 @@ Definition hcounts (l : list item) : list Z :=
 Fixpoint seqZ (start : Z) (n : nat) : list Z :=
   match n with O => [] | S k => start :: seqZ (start + 1) k end.
 
-Inductive fstate := FIdle | FHdr | FBad.
+(* framing automaton: a header opens a frame and declares a size; only a payload of exactly that size closes it *)
+Inductive fstate := FIdle | FHdr (declared : Z) | FBad.
 Definition fstep (q : fstate) (it : item) : fstate :=
-  match q, it with FIdle, OHdr _ => FHdr | FHdr, OPay _ => FIdle | _, _ => FBad end.
+  match q, it with
+  | FIdle, OHdr h => FHdr (h_nbytes h)
+  | FHdr n, OPay p => if pay_size p =? n then FIdle else FBad
+  | _, _ => FBad
+  end.
 Definition framing (l : list item) : fstate := fold_left fstep l FIdle.
 
 Definition dead (s : mstate) (c : Z) : Prop :=
@@ -135,9 +140,9 @@ Proof.
   destruct (sendall c _ _) as [[| |] s2|e s2]; try reflexivity.
 Qed.
 
-Lemma CInv_mod_send c h p : pres CInv (mod_send c h p).
+Lemma CInv_mod_send c h p : sized h p -> pres CInv (mod_send c h p).
 Proof.
-  intros s Hs. rewrite mod_send_eq. cbv zeta.
+  intros Hz s Hs. rewrite mod_send_eq. cbv zeta.
   set (n := m_count (find_mod c (mods s)) + 1).
   set (s1 := with_mods s (upd_mod c (fun m => mm_count m n) (mods s))).
   destruct Hs as [P A C U].
@@ -199,7 +204,7 @@ Proof.
                       hcounts l = seqZ 1 (length (hcounts l)) /\ framing l <> FBad /\
                       ((m_count (find_mod c0 (mods s2)) = Z.of_nat (length (hcounts l)) /\ framing l = FIdle) \/ dead s2 c0)) /\
                    (let l := proj c (out s2) in
-                      hcounts l = seqZ 1 (length (hcounts l)) /\ framing l = FHdr /\
+                      hcounts l = seqZ 1 (length (hcounts l)) /\ framing l = FHdr (h_nbytes h) /\
                       m_count (find_mod c (mods s2)) = Z.of_nat (length (hcounts l)))).
     { split; [|split; [|split]].
       - intros m' Hin. destruct (Hmods1 m' Hin) as (m & Hm & ->). exact (P m Hm).
@@ -238,6 +243,7 @@ Proof.
       * intros c0. cbv zeta. change (out s3) with (out s2 ++ [(c, OPay p)]). change (mods s3) with (mods s2).
         destruct (Z.eq_dec c0 c) as [->|Hne].
         -- rewrite proj_snoc_same, hcounts_app, framing_snoc, M4b. simpl. rewrite app_nil_r.
+           unfold sized in Hz. rewrite Hz, Z.eqb_refl.
            split; [exact M4a|]. split; [discriminate|]. left. split; [exact M4c|reflexivity].
         -- rewrite proj_snoc_other; auto. destruct (M3 c0 Hne) as (N1 & N2 & N3). split; [exact N1|]. split; [exact N2|].
            destruct N3 as [N3|[D|(k & D1 & D2)]]; [left; exact N3|right; left; exact D|].
@@ -333,36 +339,40 @@ Qed.
 (* ---- readable form: a stream that frames correctly is a concatenation of whole frames ---- *)
 Definition unframe (fs : list (hdr * payload)) : list item :=
   flat_map (fun f => [OHdr (fst f); OPay (snd f)]) fs.
+Definition all_sized (fs : list (hdr * payload)) : Prop := forall f, In f fs -> sized (fst f) (snd f).
 
 Lemma framing_shape l :
   match framing l with
-  | FIdle => exists fs, l = unframe fs
-  | FHdr => exists fs h, l = unframe fs ++ [OHdr h]
+  | FIdle => exists fs, l = unframe fs /\ all_sized fs
+  | FHdr n => exists fs h, l = unframe fs ++ [OHdr h] /\ all_sized fs /\ n = h_nbytes h
   | FBad => True
   end.
 Proof.
   induction l as [|x l IH] using rev_ind.
-  - exists []. reflexivity.
-  - rewrite framing_snoc. destruct (framing l); destruct x as [h|p]; simpl; auto.
-    + destruct IH as (fs & ->). exists fs, h. reflexivity.
-    + destruct IH as (fs & h & ->). exists (fs ++ [(h, p)]). unfold unframe. rewrite flat_map_app. simpl.
-      rewrite <- app_assoc. reflexivity.
+  - exists []. split; [reflexivity|intros f []].
+  - rewrite framing_snoc. destruct (framing l) as [|n|]; destruct x as [h|p]; simpl; auto.
+    + destruct IH as (fs & -> & Hs). exists fs, h. auto.
+    + destruct IH as (fs & h & -> & Hs & ->). destruct (pay_size p =? h_nbytes h) eqn:E; [|exact I].
+      exists (fs ++ [(h, p)]). split.
+      * unfold unframe. rewrite flat_map_app. simpl. rewrite <- app_assoc. reflexivity.
+      * intros f Hf. apply in_app_or in Hf. destruct Hf as [Hf|[<-|[]]]; [apply Hs; exact Hf|].
+        unfold sized. simpl. lia.
 Qed.
 
 Lemma hcounts_unframe fs : hcounts (unframe fs) = map (fun f => h_count (fst f)) fs.
 Proof. induction fs as [|[h p] r IH]; simpl; [reflexivity|]. f_equal. exact IH. Qed.
 
 Theorem stream_frames cfg FUEL es c :
-  exists fs tail, proj c (out (st (run cfg FUEL es))) = unframe fs ++ tail /\
+  exists fs tail, proj c (out (st (run cfg FUEL es))) = unframe fs ++ tail /\ all_sized fs /\
     map (fun f => h_count (fst f)) fs = seqZ 1 (length fs) /\
     (tail = [] \/ (exists h, tail = [OHdr h] /\ h_count h = Z.of_nat (length fs) + 1 /\ dead (st (run cfg FUEL es)) c)).
 Proof.
   destruct (CInv_run cfg FUEL es) as [_ _ C _]. specialize (C c). cbv zeta in C. destruct C as (C1 & C2 & C3).
   pose proof (framing_shape (proj c (out (st (run cfg FUEL es))))) as Hs.
   destruct (framing (proj c (out (st (run cfg FUEL es))))) eqn:Ef; [| |congruence].
-  - destruct Hs as (fs & E). exists fs, []. rewrite app_nil_r. split; [exact E|]. split; [|left; reflexivity].
+  - destruct Hs as (fs & E & Hz). exists fs, []. rewrite app_nil_r. split; [exact E|]. split; [exact Hz|]. split; [|left; reflexivity].
     rewrite E, hcounts_unframe, map_length in C1. exact C1.
-  - destruct Hs as (fs & h & E). exists fs, [OHdr h]. split; [exact E|].
+  - destruct Hs as (fs & h & E & Hz & _). exists fs, [OHdr h]. split; [exact E|]. split; [exact Hz|].
     rewrite E, hcounts_app, hcounts_unframe in C1. simpl in C1. rewrite app_length, map_length in C1. simpl in C1.
     replace (length fs + 1)%nat with (S (length fs)) in C1 by lia. rewrite seqZ_snoc in C1.
     apply app_inj_tail in C1. destruct C1 as [C1a C1b]. split; [exact C1a|]. right. exists h. split; [reflexivity|].
@@ -383,9 +393,9 @@ Proof.
   - exists (suf ++ [(c, it)]). simpl. rewrite H, app_assoc. reflexivity.
 Qed.
 
-Lemma Ext_mod_send o0 c h p : pres (Ext o0) (mod_send c h p).
+Lemma Ext_mod_send o0 c h p : sized h p -> pres (Ext o0) (mod_send c h p).
 Proof.
-  intros s Hs. rewrite mod_send_eq. cbv zeta.
+  intros _ s Hs. rewrite mod_send_eq. cbv zeta.
   set (s1 := with_mods s _). assert (H1 : Ext o0 s1) by exact Hs.
   pose proof (Ext_sendall o0 c (OHdr (set_count h (m_count (find_mod c (mods s)) + 1))) s1 H1) as H2.
   destruct (sendall c (OHdr _) s1) as [[| |] s2|e s2]; try exact H2.
